@@ -7,6 +7,10 @@ HOOK_COMMITS = ["2c68a33", "da4e8eb"]
 
 # id -> (engine, level, technique, level text, level note)
 CHECKS = {
+ "C15": ("bubble", "exploration",
+         "incremental wire-stream checker on the puppet side, exhaustive rawsocket handshake tables (server side in the bubble, client side over loopback TCP), size-boundary/PING/cut/fault workloads, transport-differential replay",
+         "runtime monitor: every byte the router writes to a rawsocket puppet is parsed by an independent incremental frame parser (malformed frame, frame above the announced limit, undecodable payload, loss or reordering are violations); the handshake is checked against a reference for every hello/reply of a 3x256x4 set (exhaustive); sizes limit-1/limit/limit+1 in both directions, PING/PONG during traffic, reserved frame types, a cut at every byte offset and websocket fake-connection faults must leave other sessions served; a generated scenario replayed over all 7 attachments must give the same canonical per-session observations",
+         "gorilla's own framing, TLS, compression and the HTTP upgrade are not exercised (the websocket peer is driven through a fake connection); the 512-byte client limit cannot carry a WELCOME and is only covered by the handshake table"),
  "C07": ("bubble", "exploration",
          "stalled-reader scenarios; zero-virtual-delay oracle for every reply and delivery to reading sessions, retry-period bound, backlog bound after resume, bubble deadlock detector, +3 min drain",
          "runtime monitor: sessions stop reading in every role (subscriber, meta subscriber, callee, caller) with small queues and socket buffers while readers exchange traffic; each reply/delivery to a reader must carry the virtual timestamp of its request (the quiescence point of the same instant), except for a callee that yielded to a blocked caller, which is held for at most the result-retry period; resumed sessions drain at most their queue bound; the bubble's all-blocked detector and a final drain decide freedom from wait cycles on the schedules produced",
